@@ -97,7 +97,10 @@ func genJSONCmd(r *rand.Rand) string {
 		add("hardKey", core.Pick(r, "true", "false", "1", "null"))
 	}
 	if r.Intn(3) == 0 {
-		add("touchlessSudo", core.Pick(r, `{"isFirefighter":true,"hosts":"h1,h2","time":30}`, "null", "{}", `{"time":"x"}`, "[]"))
+		add("touchlessSudo", core.Pick(r, `{"isFirefighter":true,"hosts":"h1,h2","time":30}`, "null", "{}", `{"time":"x"}`, "[]",
+			// members of the nested object with other JSON types than the field has
+			`{"hosts":["h1",2]}`, `{"hosts":[null]}`, `{"hosts":["a","b"]}`, `{"hosts":[["a"]]}`, `{"hosts":[{"name":"x"}]}`, `{"hosts":[]}`, `{"hosts":{"a":1}}`, `{"hosts":5}`,
+			`{"isFirefighter":"yes","hosts":"h"}`, `{"isFirefighter":[true]}`, `{"time":[30]}`, `{"time":{"s":30}}`, `{"time":1e400}`, `{"hosts":null,"time":null,"isFirefighter":null}`))
 	}
 	if r.Intn(3) == 0 {
 		add("exts", core.Pick(r, `{"field1":"value1","field2":100}`, "null", "{}", `{"a":{"b":[1,null,"x"]}}`, `"x"`, `{"LogName":"root","logname":"root"}`))
